@@ -2,6 +2,8 @@ SPECIFICATION Spec
 CONSTANT TerOnModelChange = FALSE
 CONSTANT CifChargeVerbatim = FALSE
 CONSTANT ShapeLevel = 0
+CONSTANT TerChainPadded = TRUE
+CONSTANT BlankSecondChain = FALSE
 CONSTANT MaxAtoms = 3
 INVARIANT InvDomain
 INVARIANT InvReadBack
